@@ -145,6 +145,8 @@ def run(eng, R):
                 continue
             if f.qualname in EXEMPT_PM_READERS:
                 continue
+            if eng.absorbed(f):
+                continue  # a private helper that is written out at every call site of the canonical program is decided there
             reads = _raw_lazy_reads(f, is_xy)
             if not reads:
                 continue
@@ -500,9 +502,12 @@ def _source_formulas(eng, R):
                 check(eng, R, "Hsrc", S, fn, "store", u, target=stem + "_uncor_part", when=conds + when, known=KS2, what="uncorrelated part: " + what)
                 check(eng, R, "Hsrc", S, fn, "store", c, target=stem + "_cor_part", when=conds + when, known=KS2, what="correlated part: " + what)
     KM = ["self.error", "self.error_rel", "self.cov_mat", "self.cov_mat_rel", "self.reference", "self._cov_mat", "self._cov_mat_rel", "()diag", "()sqrt"]
-    check(eng, R, "Hsrc", M, "cov_mat", "assign", "self._calculate_cov_mat_from_cov_rel(self.cov_mat_rel, self.reference)", target="self._cov_mat", when="=(self.relative)", known=KM,
+    KM = KM + ["()CovMat", "()outer"]
+    check(eng, R, "Hsrc", M, "cov_mat", "assign", ["self._calculate_cov_mat_from_cov_rel(self.cov_mat_rel, self.reference)", "CovMat(self.cov_mat_rel * outer(self.reference, self.reference))"],
+          target="self._cov_mat", when="=(self.relative)", known=KM,
           what="absolute covariance of a relative matrix source = relative covariance converted with the current reference")
-    check(eng, R, "Hsrc", M, "cov_mat_rel", "assign", "self._calculate_cov_mat_rel_from_cov(self.cov_mat, self.reference)", target="self._cov_mat_rel", when="=(not self.relative)", known=KM,
+    check(eng, R, "Hsrc", M, "cov_mat_rel", "assign", ["self._calculate_cov_mat_rel_from_cov(self.cov_mat, self.reference)", "CovMat(self.cov_mat / outer(self.reference, self.reference))"],
+          target="self._cov_mat_rel", when="=(not self.relative)", known=KM,
           what="relative covariance of an absolute matrix source = covariance converted with the current reference")
     check(eng, R, "Hsrc", M, "_calculate_cov_mat_from_cov_rel", "return", "CovMat(cov_mat_rel * outer(reference, reference))", known=["cov_mat_rel", "reference", "()abs"], what="covariance = relative covariance x outer(reference, reference)")
     check(eng, R, "Hsrc", M, "_calculate_cov_mat_rel_from_cov", "return", "CovMat(cov_mat / outer(reference, reference))", known=["cov_mat", "reference", "()abs"], what="relative covariance = covariance / outer(reference, reference)")
@@ -522,12 +527,13 @@ def _source_formulas(eng, R):
             spec = "self.get_total_error(%s).%s" % ("" if axis is None else "axis=%d" % axis, attr)
             check(eng, R, "Htot", cname, pn, "return", spec, known=["self.get_total_error", "()self.get_total_error", ".error", ".cov_mat", ".cor_mat", ".cov_mat_inverse", ".cov_mat_rel", ".error_rel"], what="%s must be read from the total of %s" % (pn, "the container" if axis is None else "axis %d" % axis))
     # canonical form + placeholders for the remaining locals (accumulators, loop variable): `_acc`, `_ax`, `_ay`, `_e` stand for whatever they are called
-    for cname, accs in (("IndexedContainer", {None: ("_acc", "self.data")}), ("XYContainer", {0: ("_ax", "self.x"), 1: ("_ay", "self.y")})):
+    # the reference is the current value array, read once *before* the sources are summed (the read brings lazily computed values up to date: rule Cfirst)
+    for cname, accs in (("IndexedContainer", {None: ("_acc", "_ref", "self.data")}), ("XYContainer", {0: ("_ax", "_rx", "self.x"), 1: ("_ay", "_ry", "self.y")})):
         f = get_func(p, cname, "_calculate_total_error")
         fn = eng.cnode(f)
         src = eng.csrc(f)
         loop_ok = src.like("for _e in self._error_dicts.values(): if _e['enabled']:")
-        for axis, (acc, ref) in sorted(accs.items(), key=lambda kv: str(kv[0])):
+        for axis, (acc, refl, refv) in sorted(accs.items(), key=lambda kv: str(kv[0])):
             ok = loop_ok and src.like("%s = np.zeros((self.size, self.size))" % acc)
             if axis is None:
                 ok = ok and src.like("if _e['enabled']: %s += _e['err'].cov_mat" % acc)
@@ -546,15 +552,16 @@ def _source_formulas(eng, R):
                         and any(pol and " ".join(ast.unparse(c).split()) == "%s['enabled']" % loopvar for c, pol in conds)
             R.ob("Htot", "%s._calculate_total_error:accumulate%s" % (cname, "" if axis is None else ":axis %d" % axis), bool(ok), (f.file, f.lineno),
                  "the total must be `acc = zeros((size, size)); acc += source.cov_mat` over the enabled sources%s" % ("" if axis is None else " of axis %d" % axis))
-            wrap = "MatrixGaussianError(%s, 'cov', relative=False, reference=%s)" % (acc, ref)
-            R.ob("Htot", "%s._calculate_total_error:wrap%s" % (cname, "" if axis is None else ":axis %d" % axis), bool(ok) and src.like(wrap), (f.file, f.lineno),
+            wrap = "MatrixGaussianError(%s, 'cov', relative=False, reference=%s)" % (acc, refl)
+            refdef = src.like("%s = %s" % (refl, refv)) or (cname == "XYContainer" and src.like("_rx, _ry = (self.x, self.y)"))
+            R.ob("Htot", "%s._calculate_total_error:wrap%s" % (cname, "" if axis is None else ":axis %d" % axis), bool(ok) and bool(refdef) and src.like(wrap), (f.file, f.lineno),
                  "the accumulated matrix must be wrapped as absolute covariance with the current values as reference: %s" % wrap)
         if cname == "XYContainer":
             R.ob("Htot", "XYContainer._calculate_total_error:order",
-                 src.like("self._total_error = [MatrixGaussianError(_ax, 'cov', relative=False, reference=self.x), MatrixGaussianError(_ay, 'cov', relative=False, reference=self.y)]"),
+                 src.like("self._total_error = [MatrixGaussianError(_ax, 'cov', relative=False, reference=_rx), MatrixGaussianError(_ay, 'cov', relative=False, reference=_ry)]"),
                  (f.file, f.lineno), "totals must be stored as [x, y] (get_total_error indexes by axis)")
         else:
-            R.ob("Htot", "IndexedContainer._calculate_total_error:store", src.like("self._total_error = MatrixGaussianError(_acc, 'cov', relative=False, reference=self.data)"),
+            R.ob("Htot", "IndexedContainer._calculate_total_error:store", src.like("self._total_error = MatrixGaussianError(_acc, 'cov', relative=False, reference=_ref)"),
                  (f.file, f.lineno), "the wrapped total must be stored as the container's total error")
         f = get_func(p, cname, "get_total_error")
         src = eng.csrc(f)
